@@ -295,8 +295,10 @@ def run(ctx):
     defn = load_definition(docs.header_plus_blob_doc())
     bases = []
     for dlens, k in (([1], 0), ([5, 1], 0), ([2, 300, 1], 0), ([1, 2], 3), ([7, 1, 40, 3], 0), ([10, 1, 1], 3)):
-        pk = [P.create_ccsds_packet(bytes(fixed.getrandbits(8) for _ in range(d)), apid=fixed.randrange(2048),
-                                    sequence_count=fixed.randrange(16384)) for d in dlens]
+        # APIDs incl. the reserved ones (2047 = idle / fill, 0) and every sequence flag: a complete packet is a complete packet
+        pk = [P.create_ccsds_packet(bytes(fixed.getrandbits(8) for _ in range(d)), apid=(2047, fixed.randrange(2048), 0, 2047)[(j + len(dlens)) % 4],
+                                    sequence_count=fixed.randrange(16384), sequence_flags=fixed.randrange(4), version_number=fixed.randrange(8),
+                                    type=fixed.randrange(2), secondary_header_flag=fixed.randrange(2)) for j, d in enumerate(dlens)]
         stream = b"".join(bytes(0x80 | fixed.getrandbits(7) for _ in range(k)) + bytes(p) for p in pk)
         borders, pos = [], 0
         for p in pk:
